@@ -325,7 +325,8 @@ def fam_arc_bbox(R, rot, radii, sign):
         R.ob('tight', ctx, tight, extra=ax, cex=lambda m: cex(m, 'tightness'), robust=robust[:3] + [z3.Not(tight)], timeout_ms=60000)
         if R.paths % 25 == 1:
             R.sample({'rotation': rot, 'radii': radii, 'decisions': ''.join('TF'[not d[0]] for d in ctx.decisions[:ctx.pos])})
-            R.witness(ctx, 'path')
+            if ctx.unknown_feas == 0:
+                R.witness(ctx, 'path')
 
 
 def zabs_(e):
